@@ -2206,6 +2206,11 @@ impl<S, T> Drop for Client<S, T> {
         guard.remove(&(self.process_id, self.secret_key));
         crate::vtrace!("client_drop", "pid" => self.process_id, "connected" => self.connected_to_server,
             "cancel" => self.cancel_mode);
+        drop(guard);
+
+        // However the task ended (error return, panic), the client is gone:
+        // take it out of the statistics.
+        self.stats.disconnect();
 
         // Dirty shutdown
         // TODO: refactor, this is not the best way to handle state management.
